@@ -1,12 +1,14 @@
 #!/bin/sh
-# usage: tools/seedtest.sh <patch.diff> <Cxx> [tier]   -- apply a seeded change to /repo, run the check, undo it.
+# usage: tools/seedtest.sh <patch.diff> <Cxx> [tier]
+# Development aid: run a check against a scratch worktree of /repo's HEAD with a seeded change applied
+# (/repo itself is left alone, so other runs are not disturbed). Same result as
+#   git -C /repo apply <patch> && ./check <Cxx> <tier> ; git -C /repo checkout -- .
 set -u
 PATCH=$1; PROP=$2; TIER=${3:-quick}
-if [ -n "$(git -C /repo status --porcelain)" ]; then echo "/repo is dirty, refusing"; exit 2; fi
-git -C /repo apply "$PATCH" 2>/dev/null || git -C /repo apply --3way "$PATCH" 2>/dev/null || { echo "patch does not apply"; git -C /repo reset -q --hard HEAD; exit 2; }
-git -C /repo reset -q
-cd /verif && ./check "$PROP" "$TIER"; RC=$?
-git -C /repo checkout -- .
-git -C /repo status --porcelain
+S=/tmp/seedrun-$$
+git -C /repo worktree add -q --detach $S HEAD || exit 2
+trap 'git -C /repo worktree remove --force $S' EXIT
+(cd $S && (git apply "$PATCH" 2>/dev/null || git apply --3way "$PATCH" 2>/dev/null)) || { echo "patch does not apply"; exit 2; }
+cd /verif && VERIF_REPO=$S ./check "$PROP" "$TIER"; RC=$?
 echo "seedtest exit=$RC"
 exit $RC
